@@ -36,6 +36,11 @@ SUMS = {
 }
 
 
+def SN(n):
+    """struct name of a node type: `None` would shadow Option::None through `use ast::*` (its real field is private)"""
+    return 'VpNone' if n == 'None' else n
+
+
 def main():
     o = []
     w = o.append
@@ -69,14 +74,15 @@ def main():
     w('        ensures r == self.node();')
     w('}')
     w('')
-    for n in NODES:
+    for n0 in NODES:
+        n = SN(n0)
         w('#[derive(Clone, Copy)]')
         w("pub struct %s<'a>(pub &'a SyntaxNode);" % n)
         w("impl<'a> AstNode<'a> for %s<'a> {" % n)
-        w('    open spec fn castable(node: &SyntaxNode) -> bool { node.kind_s() == SyntaxKind::%s }' % n)
+        w('    open spec fn castable(node: &SyntaxNode) -> bool { node.kind_s() == SyntaxKind::%s }' % n0)
         w("    open spec fn node(self) -> &'a SyntaxNode { self.0 }")
-        w('    open spec fn wf(self) -> bool { self.0.kind_s() == SyntaxKind::%s }' % n)
-        w("    fn from_untyped(node: &'a SyntaxNode) -> (r: Option<Self>) { if node.kind() == SyntaxKind::%s { Some(Self(node)) } else { Option::None } }" % n)
+        w('    open spec fn wf(self) -> bool { self.0.kind_s() == SyntaxKind::%s }' % n0)
+        w("    fn from_untyped(node: &'a SyntaxNode) -> (r: Option<Self>) { if node.kind() == SyntaxKind::%s { Some(Self(node)) } else { Option::None } }" % n0)
         w("    fn to_untyped(self) -> (r: &'a SyntaxNode) { self.0 }")
         w('}')
     w('')
@@ -84,7 +90,7 @@ def main():
     w('#[derive(Clone, Copy)]')
     w("pub enum Expr<'a> {")
     for v, t in EXPR:
-        w("    %s(%s<'a>)," % (v, t))
+        w("    %s(%s<'a>)," % (v, SN(t)))
     w('}')
     w("impl<'a> AstNode<'a> for Expr<'a> {")
     w('    open spec fn castable(node: &SyntaxNode) -> bool { expr_kind(node.kind_s()) }')
@@ -95,7 +101,7 @@ def main():
     for v, t in EXPR:
         if v in EXPR_NOT_CAST:
             continue
-        w('            SyntaxKind::%s => Some(Expr::%s(%s(node))),' % (t, v, t))
+        w('            SyntaxKind::%s => Some(Expr::%s(%s(node))),' % (t, v, SN(t)))
     w('            _ => Option::None,')
     w('        }')
     w('    }')
